@@ -11,8 +11,9 @@ ANY interleaving.
          longitude = denm_to_send.denm[...]["longitude"])               pc 5   read the longitude, hand over, k += 1
 
 Which object a repetition works on is a STRUCTURAL fact of the source, re-read from /repo on every run
-(`harness/gen_denm.py` -> `Generated/Denm.lean`): `sourceScope` is `perRepetition` iff the argument of every
-`self.transmit_denm(..)` is a local bound in the same loop body to a fresh `DecentralizedEnvironmentalNotificationMessage()`,
+(`harness/gen_denm.py` -> `Generated/Denm.lean`): `sourceScope` is `perRepetition` (or `perEvent`) iff the argument of every
+`self.transmit_denm(..)` is a local bound in the same loop body (once before the loop) to a fresh
+`DecentralizedEnvironmentalNotificationMessage()`,
 nothing reachable from the repetition body stores through `self` / a parameter / a global, and the only instance
 attributes the body reads are the read-only collaborators.  Otherwise (seeded change C17-m5: one `self.new_denm`
 refilled by every repetition of every event) it is `shared`.
@@ -29,6 +30,7 @@ open FlexModel.Fac.Denm
 /-- where the message object of a repetition lives -/
 inductive Scope
   | perRepetition     -- a local of the loop body, bound to a fresh object in every repetition (the code as it is)
+  | perEvent          -- a local of `trigger_denm_messages` bound to a fresh object before the loop, refilled
   | shared            -- ONE object reachable from the transmission management (instance attribute), refilled
   deriving DecidableEq, Repr
 
@@ -40,7 +42,13 @@ inductive Obj
 
 def objOf : Scope → Nat → Nat → Obj
   | .perRepetition, t, k => .loc t k
+  | .perEvent, t, _ => .loc t 0
   | .shared, _, _ => .attr
+
+/-- the object is private to the thread of its event -/
+def Scope.threadPrivate : Scope → Bool
+  | .shared => false
+  | _ => true
 
 /-- the fields of a message object the property talks about -/
 structure Msg where
@@ -94,7 +102,7 @@ def micro (sc : Scope) (t : Nat) (e : Event) (s : St) : St :=
   let o := objOf sc t c.k
   if e.reps ≤ c.k then s else
   match c.pc with
-  | 0 => { s with heap := (match sc with | .perRepetition => updH s.heap o white | .shared => s.heap),
+  | 0 => { s with heap := (match sc with | .perRepetition => updH s.heap o white | _ => s.heap),
                   ctl := updC s.ctl t { c with pc := 1 } }
   | 1 => { s with heap := updH s.heap o { s.heap o with aid := ⟨e.station, e.seq⟩ }, ctl := updC s.ctl t { c with pc := 2 } }
   | 2 => { s with heap := updH s.heap o { s.heap o with pos := e.pos }, ctl := updC s.ctl t { c with pc := 3 } }
@@ -133,10 +141,12 @@ def collaborators : List String := ["btp_router", "denm_coder", "logging", "vehi
 def factsOk : Bool :=
   Generated.Denm.bodySharedStores == 0 &&
   Generated.Denm.bodySelfAttrs.all (fun a => collaborators.contains a) &&
-  !Generated.Denm.transmitArgs.isEmpty && Generated.Denm.transmitArgs.all (· == 0)
+  !Generated.Denm.transmitArgs.isEmpty && Generated.Denm.transmitArgs.all (· ≤ 1)
 
-/-- the scope of the message object in the tree under check -/
-def sourceScope : Scope := if factsOk then .perRepetition else .shared
+/-- the scope of the message object in the tree under check: `transmitArgs` code 0 = bound in the repetition,
+    1 = bound once per event (both private to the event's thread), anything else or a store through `self` = shared -/
+def sourceScope : Scope :=
+  if factsOk then (if Generated.Denm.transmitArgs.all (· == 0) then .perRepetition else .perEvent) else .shared
 
 /-- round-robin schedule over `n` threads, `rounds` times -/
 def roundRobin (n rounds : Nat) : List Nat := (List.range rounds).flatMap (fun _ => List.range n)
